@@ -17,7 +17,7 @@ import json, os, re, copy, shutil
 from vlib import Broken, read_ndjson, write_ndjson, parallel
 
 SPEC = "x06_processors"
-LEVEL = "engine"
+LEVEL = "model_checking"
 ALLDEV = ["url_unanchored", "url_scheme_literal", "urls_first_host", "endpoint_whole_url", "header_malformed", "headers_shadowed",
           "range_unchecked", "type_error_silent", "unknown_param_ignored", "status_string_zero", "scrub_stops_after_overlap",
           "ignored_unmasks_overlap", "metric_error_aborts_flow", "script_changes_not_forwarded"]
